@@ -8,7 +8,7 @@ from common import Ctx, driver_json, fmt
 import uni_common as U
 
 PROPERTY = "C09"
-LEAN_MODULES = ["Proofs.C09"]
+LEAN_MODULES = ["Proofs.C09", "Proofs.C09.Kernel"]
 DRIVERS = ["driver"]
 RULE = ("each case builds a real UniLpMarket on pool (token0 = quote) and on its mirror (token0 = base; ticks negated, per-token volumes swapped, "
         "same base/quote price, same wallet) and runs the same sequence of base/quote-denominated operations on both: add_liquidity (by price), "
@@ -233,6 +233,37 @@ def apply_both(P, op):
     return ra, rb
 
 
+DRV = []   # (request, implementation's answer, replay) for the model correspondence of the views
+
+
+def view_req(w, name, value, l, u, impl, rep):
+    from demeter.uniswap.helper import base_unit_price_to_real_tick, base_unit_price_to_sqrt_price_x96, _sqrt_price_to_tick, _from_x96
+    from demeter.uniswap.liquitidy_math import estimate_ratio
+    pool = w.pool
+    price = w.market.market_status.data.price
+    tr = base_unit_price_to_real_tick(price, pool.token0.decimal, pool.token1.decimal, pool.is_token0_quote)
+    try:
+        ra = Decimal(estimate_ratio(tr, l, u) * 10 ** (pool.token1.decimal - pool.token0.decimal))
+    except Exception:  # noqa: BLE001
+        ra = Decimal(0)
+    sq = base_unit_price_to_sqrt_price_x96(price, pool.token0.decimal, pool.token1.decimal, pool.is_token0_quote)
+    est = _sqrt_price_to_tick(_from_x96(sq)) if sq > 0 else 0
+    fn = {"estimate_amount": "uni.estimateAmount", "estimate_liquidity": "uni.estimateLiquidity"}[name]
+    return ({"fn": fn, "pool": U.pool_json(pool), "state": w.dump(), "value": fmt(value), "lower": str(l), "upper": str(u),
+             "tick_real": fmt(Fraction(tr)), "ratio_amt": fmt(Fraction(ra)), "est": str(est)}, impl, rep)
+
+
+def balance_req(w, rep):
+    try:
+        b = w.market.get_market_balance()
+        impl = {"net_value": U.num(b.net_value), "liquidity_value": U.num(Decimal(b.liquidity_value)), "base_uncollected": U.num(Decimal(b.base_uncollected)),
+                "quote_uncollected": U.num(Decimal(b.quote_uncollected)), "base_in_position": U.num(Decimal(b.base_in_position)),
+                "quote_in_position": U.num(Decimal(b.quote_in_position)), "position_count": str(b.position_count)}
+    except Exception as e:  # noqa: BLE001
+        impl = type(e).__name__
+    return ({"fn": "uni.balance", "pool": U.pool_json(w.pool), "state": w.dump()}, impl, rep)
+
+
 def estimates(ctx, P, rng, rep, reg_tag):
     """estimate_amount / estimate_liquidity on both orientations (0.1 %)"""
     from demeter.uniswap._typing import PositionInfo
@@ -251,8 +282,11 @@ def estimates(ctx, P, rng, rep, reg_tag):
                     liq, t0, t1 = w.market.estimate_liquidity(value, PositionInfo(l, u))
                 base, quote = (t1, t0) if w.pool.is_token0_quote else (t0, t1)
                 res.append((None, liq, Fraction(base), Fraction(quote)))
+                impl = ([str(int(liq))] if liq is not None else []) + [U.num(Decimal(t0)), U.num(Decimal(t1))]
             except Exception as e:  # noqa: BLE001
                 res.append((type(e).__name__, None, None, None))
+                impl = type(e).__name__
+            DRV.append(view_req(w, name, value, l, u, impl, rep))
         (ea, la, ba, qa), (eb, lb, bb, qb) = res
         ctx.case(f"{name}:{reg}:{P.dq}/{P.db}:{P.fee}:{ea or 'ok'}/{eb or 'ok'}")
         r2 = dict(rep, estimate={"fn": name, "value": fmt(value), "lower": lo, "upper": up})
@@ -336,6 +370,8 @@ def run_sequence(ctx, rng, n_ops, spec=None):
             return
         if rng.random() < 0.35:
             estimates(ctx, P, rng, rep, reg)
+            DRV.append(balance_req(P.A, rep))
+            DRV.append(balance_req(P.B, rep))
 
 
 def midpoint_stream(ctx, rng, n):
@@ -358,10 +394,24 @@ def midpoint_stream(ctx, rng, n):
 def run(ctx: Ctx):
     U.cap_violations(ctx)
     rng = ctx.rng
-    for i in range(ctx.scale(260, 8000)):
+    for i in range(ctx.scale(600, 12000)):
         run_sequence(ctx, rng, rng.randint(2, 9))
     midpoint_stream(ctx, rng, ctx.scale(40, 1000))
     ctx.impl_traces = ctx.evaluations
+    # the views of both orientations against the model (bit-exact: the driver runs the 35-digit Decimal semantics)
+    if ctx.driver_ok and DRV:
+        out = driver_json([r[0] for r in DRV])
+        for (req, impl, rep), o in zip(DRV, out):
+            if "ok" in o:
+                d = U.diff_json(impl, o["ok"]) if not isinstance(impl, str) else f"impl raised {impl}, model ok"
+            elif "error" in o and not str(o["error"]).startswith("ERR") and isinstance(impl, str):
+                d = None if o["error"] == impl else f"impl raised {impl}, model {o['error']}"
+            else:
+                d = f"impl {impl if isinstance(impl, str) else 'ok'}, model {o.get('error')}"
+            if d:
+                ctx.disagree(f"{req['fn']} ({'token0=quote' if req['pool']['q0'] else 'mirror'}): {d}", rep)
+            ctx.count("views_checked_against_model")
+    DRV.clear()
 
 
 def replay(ctx: Ctx, case) -> bool:
